@@ -624,18 +624,9 @@ func (ls *LState) printCallStack() {
 	println("-------------------------")
 }
 
-func (ls *LState) closeAllUpvalues() { // +inline-start
-	for cf := ls.currentFrame; cf != nil; cf = cf.Parent {
-		if !cf.Fn.IsG {
-			ls.closeUpvalues(cf.LocalBase)
-		}
-	}
-} // +inline-end
-
 func (ls *LState) raiseError(level int, format string, args ...interface{}) {
-	if !ls.hasErrorFunc {
-		ls.closeAllUpvalues()
-	}
+	// upvalues are closed by whoever catches the error (PCall for the registers it releases, threadRun
+	// for a dying coroutine): the frames below the catching protected call stay alive and keep theirs open
 	message := format
 	if len(args) > 0 {
 		message = fmt.Sprintf(format, args...)
@@ -1528,9 +1519,6 @@ func (ls *LState) Error(lv LValue, level int) {
 	if str, ok := lv.(LString); ok {
 		ls.raiseError(level, string(str))
 	} else {
-		if !ls.hasErrorFunc {
-			ls.closeAllUpvalues()
-		}
 		ls.Push(lv)
 		ls.Panic(ls)
 	}
